@@ -73,8 +73,9 @@ HAND = [
 ]
 
 
-def judge(real, exp, model, fds, pre='', where=''):
-    """real outcome against the rules (`exp`, overload given by id) and against the model -> [(kind, key, message)]"""
+def judge(real, exp, model, fds, pre='', where='', tagof=None):
+    """real outcome against the rules (`exp`, overload given by id) and against the model -> [(kind, key, message)]
+    `tagof`: definition id of the model -> tag of its payload (several definitions may share one callable)"""
     out = []
     if 'delegate_error' in real:
         # resolution succeeded; converting the arguments / calling the payload raised (e.g. a keyword that
@@ -90,6 +91,8 @@ def judge(real, exp, model, fds, pre='', where=''):
             where, real['log'], exp['log'], r_out)))
     if model is not None:
         m_out = model.get('err', model.get('id'))
+        if tagof is not None and 'id' in model:
+            m_out = tagof(m_out)
         mlog = [p for p in model['log'] if p < rl.SILENT]
         if m_out != r_out:
             out.append(('mismatch', pre + 'resolution', '%sreal outcome %r, model %r' % (where, r_out, m_out)))
@@ -107,12 +110,16 @@ def judge(real, exp, model, fds, pre='', where=''):
 def compare(fam, call, model):
     """-> list of (kind, key, message)"""
     real = rl.run_real(fam, call)
-    if 'delegate_error' in real:
+    if 'delegate_error' in real and not fam.table_fails:
         return [], real
     exp = rl.spec_resolve(fam, call)
     if 'id' in exp:
         exp['id'] = exp['id'].tag
-    return judge(real, exp, model, fam.fds), real
+    out = judge(real, exp, model, fam.fds)
+    for fid, diffs in fam.table_fails[:1]:
+        o = next(o for l in fam.spec for o in l['fns'] if o['id'] == fid)
+        out.append(('oracle', 'definition-table', table_message(o, diffs)))
+    return out, real
 
 
 # ---------------------------------------------------------------- call histories on live contexts
@@ -143,8 +150,19 @@ def judge_history(hspec, h, recs, models):
         where = 'step %d (%s(..) from context %d, after %s): ' % (
             k, st[3], st[1], ' '.join('%s%s' % (x[0], x[1:3] if x[0] != 'call' else [x[1]])
                                       for x in hspec['steps'][max(0, k - 4):k]) or 'nothing')
-        out += judge(real, exp, models[ci] if models is not None else None, h.fds, 'history-', where)
+        out += judge(real, exp, models[ci] if models is not None else None, h.by_tag, 'history-', where,
+                     tagof=lambda d: h.tag.get(d, d))
+    for fid, diffs in h.table_fails[:1]:
+        out.append(('oracle', 'definition-table', table_message(hspec['defs'][str(fid)], diffs)))
     return out
+
+
+def table_message(ospec, diffs):
+    return ('the FunctionDefinition yaql builds for the Python callable of overload %d differs from what the documented '
+            'rules (extending_yaql.rst) derive from its signature and decorators: %s' % (ospec['id'], '; '.join(diffs[:3])))
+
+
+NEW_CTX = ('root', 'child', 'multi', 'linked')
 
 
 def run_history(hspec, drv):
@@ -162,27 +180,27 @@ def shrink_history(hspec, drv, kind, key):
         return any(f[0] == kind and f[1] == key for f in fs)
 
     def used(c):
-        return {st[2] for st in c['steps'] if st[0] in ('reg', 'del')}
+        return {st[2] for st in c['steps'] if st[0] in ('reg', 'regc', 'del')}
     changed = True
     while changed:
         changed = False
         cands = []
         steps = hspec['steps']
         for k in range(len(steps) - 1, -1, -1):
-            if steps[k][0] in ('reg', 'del', 'call'):
+            if steps[k][0] in ('reg', 'regc', 'del', 'call'):
                 c = copy.deepcopy(hspec)
                 del c['steps'][k]
                 cands.append(c)
             elif steps[k][0] == 'child':
                 # a context nobody mentions later can go when it is the last one created
-                idx = sum(1 for s in steps[:k] if s[0] in ('root', 'child'))
+                idx = sum(1 for s in steps[:k] if s[0] in NEW_CTX)
                 later = [s for s in steps[k + 1:]]
-                if not any(s[0] in ('root', 'child') for s in later) and not any(s[1] == idx for s in later):
+                if not any(s[0] in NEW_CTX for s in later) and not any(s[1] == idx for s in later):
                     c = copy.deepcopy(hspec)
                     del c['steps'][k]
                     cands.append(c)
         for k, st in enumerate(steps):
-            if st[0] == 'reg' and st[3]:
+            if st[0] in ('reg', 'regc') and st[3]:
                 c = copy.deepcopy(hspec)
                 c['steps'][k][3] = False
                 cands.append(c)
@@ -218,15 +236,27 @@ def history_features(hspec, recs, hist):
         hist[k] = hist.get(k, 0) + n
     steps = hspec['steps']
     bump('hist:style:' + hspec.get('style', '?'))
-    bump('hist:contexts:%d' % sum(1 for s in steps if s[0] in ('root', 'child')))
+    bump('hist:contexts:%d' % sum(1 for s in steps if s[0] in NEW_CTX))
     for s in steps:
-        bump('hist:step:' + s[0] + (':exclusive' if s[0] == 'reg' and s[3] else ''))
+        bump('hist:step:' + s[0] + (':exclusive' if s[0] in ('reg', 'regc') and s[3] else ''))
     par = []
     for s in steps:
-        if s[0] == 'root':
+        if s[0] in ('root', 'multi'):
             par.append(None)
         elif s[0] == 'child':
             par.append(s[1])
+        elif s[0] == 'linked':
+            par.append(s[1])
+    # one definition object / one callable in several contexts, with different exclusive flags
+    where = {}
+    for s in steps:
+        if s[0] in ('reg', 'regc'):
+            where.setdefault(s[2], set()).add((s[1], bool(s[3])))
+    for f, ws in where.items():
+        if len({c for c, _ in ws}) > 1:
+            bump('hist:shared-definition')
+            if len({x for _, x in ws}) > 1:
+                bump('hist:shared-definition:plain-here-exclusive-there')
 
     def ancestors(i):
         out = []
@@ -249,8 +279,9 @@ def history_features(hspec, recs, hist):
             if hit:
                 bump('hist:call-change-in-ancestor-call:' + hit)
             seen_calls.append((k, s[1], s[3]))
-        elif s[0] in ('reg', 'del') and seen_calls:
-            changed.append((k, s[1], hspec['defs'][str(s[2])].get('fname', 'f'), s[0]))
+        elif s[0] in ('reg', 'regc', 'del') and seen_calls:
+            o = hspec['defs'].get(str(s[2]))
+            changed.append((k, s[1], o.get('fname', 'f') if o else 'f', s[0]))
     prev = {}
     for k, st, real, exp in recs:
         bump('hist:outcome:' + str(real.get('err', 'delegate-raised' if 'delegate_error' in real else 'chosen')))
